@@ -46,22 +46,22 @@ def alpha_of(tok):
 
 # ------------------------------------------------------------------ object construction
 def mk_enc(lm, alpha, syms):
-    return lm.EncodedSequence("".join(letters(alpha)[s] for s in syms), protein=(alpha == "protein"))
+    return lm.EncodedSequence("".join(letters(alpha)[s] for s in syms), **common.pkw(alpha))
 
 
 def mk_counts(lm, alpha, rows):
     le = letters(alpha)
-    return lm.CountMatrix({le[j]: [r[j] for r in rows] for j in range(len(le))}, protein=(alpha == "protein"))
+    return lm.CountMatrix({le[j]: [r[j] for r in rows] for j in range(len(le))}, **common.pkw(alpha))
 
 
 def mk_scoring(lm, alpha, rows_bits):
     le = letters(alpha)
     return lm.ScoringMatrix({le[j]: [bits_f32(r[j]) for r in rows_bits] for j in range(len(le))},
-                            protein=(alpha == "protein"))
+                            **common.pkw(alpha))
 
 
 def mk_striped(lm, alpha, syms):
-    return lm.stripe("".join(letters(alpha)[s] for s in syms), protein=(alpha == "protein"))
+    return lm.stripe("".join(letters(alpha)[s] for s in syms), **common.pkw(alpha))
 
 
 # ------------------------------------------------------------------ copies
